@@ -7,16 +7,40 @@ BASE = ("cd /repo && /venv/bin/python -m pytest -ra -q -p no:cacheprovider --tim
         "--continue-on-collection-errors")
 
 # id -> (category, technique, level text, level note, design ref)
+TB = "trusts TLC, the JDK SHA-256/SHA-1 and the hand-written RIPEMD-160 override, java.math.BigInteger (BigNat override; all self-tested at setup), and the harness projection functions"
 CHECKS = {
+ "C01": ("model_checking",
+         "TLA+ wire-format reference (Wire.tla: serialiser + total parser) model-checked by TLC on a boundary universe (round trip, marker iff witness, every strict prefix truncates, every extension is extra-data); recorded serialize/deserialize calls of the real classes validated by TLC (Trace_Wire)",
+         "TLC explores all transactions of a small boundary universe with every prefix and several extensions (exhaustive for that universe) and validates every recorded library call - every cut point of every generated encoding - against the reference; beyond the universe coverage is boundary catalogue + seeded sampling",
+         TB + "; lengths >= 2^32 cannot be materialised", "DESIGN.md section 3 C01"),
+ "C02": ("model_checking",
+         "Ids.tla (txid/wtxid/block hash over Wire.tla) evaluated by TLC on recorded identifier / == / hash() observations of witness-variant families (Trace_Wire); pre-image laws model-checked in MC_Wire",
+         "TLC checks on the bounded universe that the stripped form ignores the witness and differs from the full form exactly when a stack is non-empty, and validates every recorded identifier, equality matrix and hash class of the real objects",
+         TB + "; 'differs exactly when' rests on SHA-256 collision resistance beyond the pre-image statement", "DESIGN.md section 3 C02"),
+ "C03": ("model_checking",
+         "SigHash.tla (legacy algorithm incl. FindAndDelete of CODESEPARATOR, commitment table) model-checked by TLC over all 256 hash types x shapes; recorded RawSignatureHash/SignatureHash calls validated by TLC (Trace_Script)",
+         "TLC checks for every shape <= 3x3, index and all 256 hash types that the digest depends on the type only through its class and trailing bytes, the ONE cases, and that the declarative commitment table equals pre-image sensitivity; every recorded call (all 256 types on the leading shapes) must equal the reference digest / error indication and leave the tx unchanged",
+         TB, "DESIGN.md section 3 C03"),
+ "C04": ("model_checking",
+         "SigHash.tla (BIP143 pre-image) model-checked by TLC (zeroing rules, commitment table, layout length) over all 256 hash types; recorded SignatureHash(WITNESS_V0) calls validated by TLC (Trace_Script)",
+         "as C03 for the BIP143 digest, with lock time / sequence / amount / script-code length swept over their boundaries in the recorded calls",
+         TB, "DESIGN.md section 3 C04"),
+ "C06": ("model_checking",
+         "ScriptVM.tla (interpreter state machine transcribed from Core's EvalScript/VerifyScript) explored exhaustively by TLC on all <=2-token programs (<=3 over a reduced alphabet) with every terminal state replayed into EvalScript; per-opcode hook traces of the real interpreter validated step by step by TLC (Trace_ScriptVM), ECDSA evaluated in the spec (Curve.tla)",
+         "exhaustive for short programs in both directions (spec->code replay of every explored behaviour, code->spec step validation with the full interpreter state compared after every opcode), limit family and Core's JSON vectors; long programs are sampled",
+         TB + "; lenient-zone signatures (non-strict DER starting 0x30) unconstrained; CLEANSTACK only with P2SH", "DESIGN.md section 3 C06"),
+ "C07": ("model_checking",
+         "VerifyScript phase machine (ScriptVM.tla) model-checked by TLC on every byte string <=2 bytes in three roles (totality, termination by lexicographic progress, verdict in {accept,reject}, agreement with the functional definition); recorded fuzz executions validated by TLC (Trace_ScriptVM): exception family, inputs unchanged, error-state bounds, verdict for short inputs",
+         "spec-level totality/termination is exhaustive for the bounded byte-string space; implementation-level containment is established for every recorded execution (tens of thousands of seeded random/mutated/truncated inputs per run)",
+         TB, "DESIGN.md section 3 C07"),
+ "C08": ("model_checking",
+         "Script.tla/ScriptNum.tla model-checked by TLC on all byte strings <=2 bytes (<=3 over a reduced alphabet), token lists and the number codec; recorded build/iterate/raw_iter/predicate/sig-op/number-codec calls validated by TLC (Trace_Script)",
+         "exhaustive over all byte strings of length <= 2 as scripts (thorough tier in the implementation direction, always at spec level) plus structured and random longer inputs; every recorded observation must equal the reference",
+         TB, "DESIGN.md section 3 C08"),
  "C17": ("model_checking",
-         "TLA+ reference (Compact.tla, Core SetCompact/GetCompact/CheckProofOfWork) model-checked by TLC on the full "
-         "exponent x mantissa-boundary grid; every recorded library call validated by TLC against the same operators (Trace_Compact)",
-         "TLC checks the algebraic laws of the reference on the complete boundary grid (all 256 exponents, all bit lengths 0..256, "
-         "truth table at target-1/target/target+1 and chain limit) and then validates every recorded call of "
-         "uint256_from_compact / compact_from_uint256 / CheckProofOfWork under each chain against that reference; the grid is "
-         "exhaustive in the exponent, sampled in the mantissa",
-         "trusts TLC, java.math.BigInteger (BigNat override, self-tested against the TLA+ definition at setup), chain limits from Core",
-         "DESIGN.md section 3 C17"),
+         "TLA+ reference (Compact.tla, Core SetCompact/GetCompact/CheckProofOfWork) model-checked by TLC on the full exponent x mantissa-boundary grid; every recorded library call validated by TLC against the same operators (Trace_Compact)",
+         "TLC checks the algebraic laws of the reference on the complete boundary grid (all 256 exponents, all bit lengths 0..256, truth table at target-1/target/target+1 and chain limit) and then validates every recorded call of uint256_from_compact / compact_from_uint256 / CheckProofOfWork under each chain against that reference; the grid is exhaustive in the exponent, sampled in the mantissa",
+         TB + "; chain limits from Core's chainparams.cpp", "DESIGN.md section 3 C17"),
 }
 PENDING = {}
 ALL = ["C%02d" % i for i in range(1, 21)]
